@@ -6,7 +6,9 @@ it with `Tbox.C05.Spec.check`.  Prints `ok …` or `reject <reason>`. -/
 import TboxModel.Util
 import TboxModel.C05.Model
 import TboxModel.C05.Spec
+import TboxModel.C05.Replay
 open Tbox.Util Tbox.C05 Tbox.C05.Spec
+open Tbox.C05.Replay (Ev EvK Api)
 
 structure TAcc where
   h : Hist := {}
@@ -23,6 +25,21 @@ structure TAcc where
   mdiv : List String := []       -- model-internal (policy) divergences: spawn rule, voluntary-exit rule
   destroyed : Bool := false      -- the object was deleted (destructor without a preceding cleanup())
   nest : List (Nat × TaskH) := []  -- tasks submitted by task bodies / callbacks: (raw number - 2048, record)
+  evs : Array Ev := #[]            -- step-level events (replayed on the model at `fin`)
+  noReplay : Bool := false         -- the event log overflowed
+  wt0 : Bool := false              -- WorkThread constructed without a default loop
+  okCfg : Bool := false            -- initialize() accepted the configuration (or WorkThread)
+  failN : Nat := 0                 -- a `failspawn n` op is pending: the n-th thread creation from now on fails (0 = none)
+  bulkDrained : Bool := false      -- a drain / settle succeeded after the bulk submission and before cleanup
+  pendX : Option (Nat × Int × Bool × Nat × Bool) := none   -- the execute() just answered: (task, prio, cb, cs, token returned)
+
+def TAcc.ev (a : TAcc) (q thr : Nat) (k : EvK) : TAcc := if q == 0 then a else { a with evs := a.evs.push ⟨q, thr, k⟩ }
+
+def ansToStatus : Ans → Status | .w => .waiting | .e => .executing | .n => .notFound
+
+/-- the completion callback is really delivered: not for a WorkThread without any loop (variants 0, 1 of the
+harness pass no loop to execute()) -/
+def effCb (a : TAcc) (k : Nat) (cb : Bool) : Bool := cb && !(a.wt0 && k % 4 < 2)
 
 def fail (a : TAcc) (m : String) : TAcc := { a with err := some s!"op#{a.nops} {m}" }
 
@@ -42,15 +59,16 @@ def parseAns (s : String) : Option Ans :=
 /-- `P stat k a qb qa` -/
 def takeStat (a : TAcc) (l : String) (wantK : Option Nat) : TAcc :=
   match words l with
-  | ["P", "stat", k, x, qb, qa] =>
-    match k.toNat?, parseAns x, qb.toNat?, qa.toNat? with
-    | some k, some x, some qb, some qa =>
+  | ["P", "stat", k, x, qb, qa, cs] =>
+    match k.toNat?, parseAns x, qb.toNat?, qa.toNat?, cs.toNat? with
+    | some k, some x, some qb, some qa, some cs =>
       if k ≥ a.h.tasks.size then fail a s!"status line for unknown task [{l}]"
       else if wantK.isSome && wantK != some k then fail a s!"status line for the wrong task [{l}]"
       else
         let tag := "stat-" ++ (match x with | .w => "w" | .e => "e" | .n => "n")
-        { a with h := { a.h with queries := a.h.queries.push { k := k, a := x, qb := qb, qa := qa } }, tags := tag :: a.tags }
-    | _, _, _, _ => fail a s!"unparsable [{l}]"
+        let a2 : TAcc := { a with h := { a.h with queries := a.h.queries.push { k := k, a := x, qb := qb, qa := qa } }, tags := tag :: a.tags }
+        a2.ev cs 0 (.api (.stat k (ansToStatus x)))
+    | _, _, _, _, _ => fail a s!"unparsable [{l}]"
   | _ => fail a s!"impl=[{l}] expected a status line"
 
 partial def takeHammer (a : TAcc) : TAcc :=
@@ -87,32 +105,36 @@ partial def takeEvents (a : TAcc) : TAcc :=
     | ["E", "body", k, thr, s, e] =>
       match k.toNat?, thr.toNat?, s.toNat?, e.toNat? with
       | some k, some thr, some s, some e =>
-        takeEvents { a' with h := { a'.h with bodies := a'.h.bodies.push { k := k, thr := thr, s := s, e := e } } }
+        takeEvents (({ a' with h := { a'.h with bodies := a'.h.bodies.push { k := k, thr := thr, s := s, e := e } } }).ev s thr (.BS k))
       | _, _, _, _ => fail a s!"unparsable [{l}]"
     | ["E", "cb", k, thr, q] =>
       match k.toNat?, thr.toNat?, q.toNat? with
       | some k, some thr, some q =>
-        takeEvents { a' with h := { a'.h with cbs := a'.h.cbs.push { k := k, thr := thr, q := q } } }
+        takeEvents (({ a' with h := { a'.h with cbs := a'.h.cbs.push { k := k, thr := thr, q := q } } }).ev q thr (.CB k))
       | _, _, _ => fail a s!"unparsable [{l}]"
-    | ["N", "exec", k, _, _, prio, cb, qb, qa] =>
-      match k.toNat?, intOfString? prio, qb.toNat?, qa.toNat? with
-      | some k, some p, some qb, some qa =>
+    | ["N", "exec", k, _, thr, prio, cb, qb, qa, cs] =>
+      match k.toNat?, intOfString? prio, qb.toNat?, qa.toNat?, cs.toNat?, thr.toNat? with
+      | some k, some p, some qb, some qa, some cs, some thr =>
         if k < 2048 then fail a s!"nested task numbered below 2048 [{l}]" else
         let lvl := if a'.h.isPool then levelOf p else 2
-        takeEvents { a' with nest := (k - 2048, { lvl := lvl, cb := cb == "1", qb := qb, qa := qa }) :: a'.nest,
-                             tags := "nested-exec" :: a'.tags }
-      | _, _, _, _ => fail a s!"unparsable [{l}]"
+        let cbE := effCb a' k (cb == "1")
+        let a2 : TAcc := { a' with nest := (k - 2048, { lvl := lvl, cb := cbE, qb := qb, qa := qa }) :: a'.nest,
+                                   tags := "nested-exec" :: a'.tags }
+        takeEvents (a2.ev cs thr (.api (.exec k (if a'.h.isPool then p else 0) cbE false true)))
+      | _, _, _, _, _, _ => fail a s!"unparsable [{l}]"
     | ["N", "execnull", _, _, qb, qa] =>
       match qb.toNat?, qa.toNat? with
       | some qb, some qa => takeEvents { a' with h := { a'.h with nestedNull := (qb, qa) :: a'.h.nestedNull } }
       | _, _ => fail a s!"unparsable [{l}]"
-    | ["N", "stat", k, x, thr, qb, qa] =>
-      match k.toNat?, parseAns x, qb.toNat?, qa.toNat? with
-      | some k, some x, some qb, some qa =>
-        takeEvents { a' with h := { a'.h with queries := a'.h.queries.push { k := k, a := x, qb := qb, qa := qa } },
-                             tags := (if thr == "0" then "callback-query" else "worker-query") :: a'.tags }
-      | _, _, _, _ => fail a s!"unparsable [{l}]"
-    | ["N", "cancel", k, r, thr, qb, qa] =>
+    | ["N", "stat", k, x, thr, qb, qa, cs] =>
+      match k.toNat?, parseAns x, qb.toNat?, qa.toNat?, cs.toNat? with
+      | some k, some x, some qb, some qa, some cs =>
+        let a2 : TAcc := { a' with h := { a'.h with queries := a'.h.queries.push { k := k, a := x, qb := qb, qa := qa } },
+                                   tags := (if thr == "0" then "callback-query" else "worker-query") :: a'.tags }
+        takeEvents (a2.ev cs (thr.toNat?.getD 0) (.api (.stat k (ansToStatus x))))
+      | _, _, _, _, _ => fail a s!"unparsable [{l}]"
+    | ["N", "cancel", k, r, thr, qb, qa, cs] =>
+      let a' := a'.ev (cs.toNat?.getD 0) (thr.toNat?.getD 0) (.api (.cancel (k.toNat?.getD 0) (r.toNat?.getD 9)))
       match k.toNat?, r.toNat?, qb.toNat?, qa.toNat? with
       | some k, some r, some qb, some qa =>
         let q : Option Query :=
@@ -129,7 +151,34 @@ partial def takeEvents (a : TAcc) : TAcc :=
     | ["W", i, ws, we] =>
       match i.toNat?, ws.toNat?, we.toNat? with
       | some i, some ws, some we =>
-        takeEvents { a' with h := { a'.h with workers := a'.h.workers.push { thr := i, s := ws, e := we } } }
+        takeEvents ((({ a' with h := { a'.h with workers := a'.h.workers.push { thr := i, s := ws, e := we } } }).ev ws i .TS).ev we i .TE)
+      | _, _, _ => fail a s!"unparsable [{l}]"
+    | ["S", "overflow"] => takeEvents { a' with noReplay := true }
+    | ["E", "bulk", n, ran] =>
+      match n.toNat?, ran.toNat? with
+      | some n, some ran =>
+        if n != a'.h.bulkN then fail a s!"bulk: {n} tasks recorded, {a'.h.bulkN} accepted"
+        else if ran > n then fail a s!"bulk: {ran} executions of {n} accepted tasks: a task body was executed more than once"
+        else if a'.bulkDrained && ran != n then fail a s!"bulk: only {ran} of {n} accepted tasks were executed although the pool had drained before cleanup"
+        else if a'.h.cleanup.isNone && ran != n && false then a'
+        else takeEvents { a' with tags := "bulk" :: a'.tags }
+      | _, _ => fail a s!"unparsable [{l}]"
+    | ["S", kind, thr, q] =>
+      match thr.toNat?, q.toNat? with
+      | some thr, some q =>
+        let k : Option EvK := if kind == "L" then some .L else if kind == "U" then some .U else if kind == "CW" then some .CW
+          else if kind == "CX" then some .CX else if kind == "LL" then some .LL else if kind == "NO" then some .NO
+          else if kind == "NA" then some .NA else none
+        (match k with
+         | some k => takeEvents (a'.ev q thr k)
+         | none => fail a s!"unparsable [{l}]")
+      | _, _ => fail a s!"unparsable [{l}]"
+    | ["S", kind, thr, q, arg] =>
+      match thr.toNat?, q.toNat?, arg.toNat? with
+      | some thr, some q, some arg =>
+        if kind == "J" then takeEvents (a'.ev q thr (.J arg))
+        else if kind == "TC" then takeEvents (a'.ev q thr (.TC arg))
+        else fail a s!"unparsable [{l}]"
       | _, _, _ => fail a s!"unparsable [{l}]"
     | ["E", "extra", k, _] =>
       takeEvents { a' with h := { a'.h with extra := k.toNat?.getD 0 :: a'.h.extra } }
@@ -157,9 +206,14 @@ def takeSpawn (a : TAcc) : TAcc :=
   | (none, _) => fail a "implementation output ends before the spawn record (crash / timeout)"
   | (some l, a') =>
     match (words l).drop 2 |>.mapM String.toNat? with
-    | some [sp, q, thr, idle, un] =>
+    | some [sp, q, thr, idle, un, failed] =>
       if !(l.startsWith "M spawn ") then fail a s!"impl=[{l}] expected a spawn record" else
-      let a' := { a' with spawns := a'.spawns + sp }
+      let a' := { a' with spawns := a'.spawns + sp, failN := (if failed > 0 then 0 else a'.failN - sp),
+                          tags := (if failed > 0 then ["spawn-failed"] else []) ++ a'.tags }
+      let a' := match a'.pendX with
+        | some (k, p, cb, cs, tok) => { (a'.ev cs 0 (.api (.exec k p cb (failed > 0) tok))) with pendX := none }
+        | none => a'
+      if failed > 0 then a' else
       if !a'.h.isPool then (if sp != 0 then mdivAdd a' "WorkThread::execute created a thread" else a')
       else if sp > 1 then mdivAdd a' s!"execute created {sp} threads"
       else if q == 1 && a'.ready then
@@ -196,19 +250,37 @@ def boundedNat (s : String) (hi : Nat) : Option Nat := do
   let n ← s.toNat?
   if n ≤ hi then some n else none
 
+/-- a value of the C++ type `ssize_t` (64 bit) -/
+def ssizeOf? (s : String) : Option Int := do
+  let n ← intOfString? s
+  if -9223372036854775808 ≤ n && n ≤ 9223372036854775807 then some n else none
+
 def stepOp1 (a : TAcc) (line : String) : TAcc :=
   if a.err.isSome then a else
   let a := { a with nops := a.nops + 1 }
   let bad := expectExact a "bad-op"
   match words line with
   | ["cfg", kind, mn, mx, seed, pert] =>
-    match boundedNat mn 64, boundedNat mx 64, seed.toNat?, boundedNat pert 1000 with
-    | some mn, some mx, some _, some _ =>
-      if a.configured || a.destroyed || !(kind == "pool" || kind == "wt") then bad else
+    match ssizeOf? mn, ssizeOf? mx, seed.toNat?, boundedNat pert 1000 with
+    | some smn, some smx, some _, some _ =>
+      if a.configured || a.destroyed || !(kind == "pool" || kind == "wt" || kind == "wt0") || (smn > 64 && smn ≤ smx) then bad else
       let isPool := kind == "pool"
-      let ok := if isPool then (Cfg.ok { min := mn, max := mx }) else true
-      let a1 := expectExact a ("P init " ++ (if ok then "1" else "0"))
-      { a1 with configured := true, ready := ok, mn := (if isPool then mn else 1),
+      let ok := if isPool then Cfg.okI smn smx else true
+      let mn := smn.toNat
+      let mx := smx.toNat
+      -- a pending `failspawn n` with n <= min makes initialize() fail: it must roll back (no worker thread left)
+      let failsInit := isPool && ok && a.failN != 0 && a.failN ≤ mn
+      let ok := ok && !failsInit
+      let a1 := match nextLine a with
+        | (some l, a') =>
+          if l.startsWith "P init threw" then fail a s!"initialize() threw an exception when a worker thread could not be created [{l}]"
+          else if l == s!"P init {if ok then 1 else 0} {if ok then (if isPool then mn else 1) else 0}" then a'
+          else if !ok && l.startsWith "P init 0 " then fail a s!"initialize() failed and left worker threads running [{l}]"
+          else fail a s!"impl=[{l}] expected=[P init {if ok then 1 else 0} …]"
+        | (none, _) => fail a "implementation output ends at cfg (crash / timeout)"
+      let a1 := { a1 with failN := if failsInit then 0 else a1.failN - (if isPool && ok then mn else 0),
+                          tags := (if failsInit then ["init-spawn-failed"] else []) ++ a1.tags }
+      { a1 with configured := true, ready := ok, okCfg := ok, wt0 := kind == "wt0", mn := (if isPool then mn else 1),
                 h := { a1.h with isPool := isPool, max := if isPool then mx else 1 },
                 tags := (if isPool then (if mn == mx then "pool-fixed" else if mn == 0 then "pool-min0" else "pool-elastic") else "workthread") :: a1.tags }
     | _, _, _, _ => bad
@@ -218,24 +290,31 @@ def stepOp1 (a : TAcc) (line : String) : TAcc :=
       (scriptOk (ws.getD 4 "") a.h.tasks.size && scriptOk (ws.getD 5 "") a.h.tasks.size && (cb == "1" || ws.getD 5 "" == "-"))
     match intOfString? prio, boundedNat dur 20000 with
     | some p, some _ =>
-      if !(cb == "0" || cb == "1") || p < -100 || p > 100 || !a.configured || a.h.tasks.size ≥ 2048 || a.fin || !scriptsOk then bad else
+      if !(cb == "0" || cb == "1") || p < -2147483648 || p > 2147483647 || !a.configured || a.h.tasks.size ≥ 2048 || a.fin || !scriptsOk then bad else
       let a := if ws.length == 6 then { a with tags := "reentrant" :: a.tags } else a
       match nextLine a with
       | (none, _) => fail a "implementation output ends at exec (crash / timeout)"
       | (some l, a') =>
         match words l with
-        | ["P", "exec", k, qb, qa] =>
-          match qb.toNat?, qa.toNat? with
-          | some qb, some qa =>
-            if k == "null" then
-              if a.ready then fail a s!"execute returned a null token although the pool is ready" else takeSpawn a'
+        | ["P", "exec", k, qb, qa, cs] =>
+          match qb.toNat?, qa.toNat?, cs.toNat? with
+          | some qb, some qa, some cs =>
+            if k == "threw" then
+              fail a s!"execute() threw an exception at [{qb},{qa}]: the caller got no token (the task may still be queued: lost or run unannounced)"
+            else if k == "null" then
+              if a.ready && a.failN == 0 then fail a s!"execute returned a null token although the pool is ready"
+              else if a.ready then takeSpawn { a' with pendX := some (4095, p, false, cs, false) }
+              else takeSpawn a'
             else if !a.ready then fail a s!"execute returned a token [{l}] although the pool is not ready"
             else if k.toNat? != some a.h.tasks.size then fail a s!"unexpected task number [{l}]"
             else
               -- WorkThread has a single queue: every task at the same level
               let lvl := if a.h.isPool then levelOf p else 2
-              takeSpawn { a' with h := { a'.h with tasks := a'.h.tasks.push { lvl := lvl, cb := cb == "1", qb := qb, qa := qa } } }
-          | _, _ => fail a s!"unparsable [{l}]"
+              let kk := a.h.tasks.size
+              let cbE := effCb a kk (cb == "1")
+              takeSpawn { a' with h := { a'.h with tasks := a'.h.tasks.push { lvl := lvl, cb := cbE, qb := qb, qa := qa } },
+                                  pendX := some (kk, (if a.h.isPool then p else 0), cbE, cs, true) }
+          | _, _, _ => fail a s!"unparsable [{l}]"
         | _ => fail a s!"impl=[{l}] expected an exec line"
     | _, _ => bad
   | ["stat", k] =>
@@ -254,10 +333,11 @@ def stepOp1 (a : TAcc) (line : String) : TAcc :=
       | (none, _) => fail a "implementation output ends at cancel (crash / timeout)"
       | (some l, a') =>
         match words l with
-        | ["P", "cancel", k', r, qb, qa] =>
+        | ["P", "cancel", k', r, qb, qa, cs] =>
           match k'.toNat?, r.toNat?, qb.toNat?, qa.toNat? with
           | some k', some r, some qb, some qa =>
             if k' != k then fail a s!"cancel line for the wrong task [{l}]" else
+            let a' := a'.ev (cs.toNat?.getD 0) 0 (.api (.cancel k r))
             let q : Option Query :=
               if r == 0 then some { k := k, a := .w, cancelOk := true, isCancel := true, qb := qb, qa := qa }
               else if r == 1 then some { k := k, a := .n, isCancel := true, qb := qb, qa := qa }
@@ -270,16 +350,42 @@ def stepOp1 (a : TAcc) (line : String) : TAcc :=
           | _, _, _, _ => fail a s!"unparsable [{l}]"
         | _ => fail a s!"impl=[{l}] expected a cancel line"
     | none => bad
+  | ["reinit", mn, mx] =>
+    -- initialize() on a pool that is ready is refused and changes nothing (whatever the arguments)
+    match ssizeOf? mn, ssizeOf? mx with
+    | some _, some _ => if !a.configured || !a.h.isPool || !a.ready then bad else expectExact { a with tags := "reinit" :: a.tags } "P init 0"
+    | _, _ => bad
+  | ["bulk", n, prio] =>
+    match boundedNat n 200000, intOfString? prio with
+    | some n, some p =>
+      if n == 0 || p < -2147483648 || p > 2147483647 || !a.configured || a.fin || a.h.bulkN != 0 then bad else
+      match nextLine a with
+      | (none, _) => fail a "implementation output ends at bulk (crash / timeout)"
+      | (some l, a') =>
+        match words l with
+        | ["P", "bulk", acc, qb, _] =>
+          match acc.toNat?, qb.toNat? with
+          | some acc, some qb =>
+            if acc != (if a.ready then n else 0) then fail a s!"bulk: {acc} of {n} execute() calls returned a token, pool ready = {a.ready}"
+            else { a' with noReplay := true, h := { a'.h with bulkN := acc, bulkLvl := (if a.h.isPool then levelOf p else 2), bulkQb := qb + 1 } }
+          | _, _ => fail a s!"unparsable [{l}]"
+        | _ => fail a s!"impl=[{l}] expected a bulk line"
+    | _, _ => bad
+  | ["failspawn", n] =>
+    match boundedNat n 8 with
+    | some n => if n == 0 || (a.configured && !a.h.isPool) || a.destroyed then bad else expectExact { a with failN := n } "P failspawn"
+    | none => bad
   | ["snap"] =>
     if !a.configured || !a.h.isPool then bad else
     match nextLine a with
     | (none, _) => fail a "implementation output ends at snap (crash / timeout)"
     | (some l, a') =>
       match (words l).drop 2 |>.mapM String.toNat? with
-      | some [thr, idle, doing, u0, u1, u2, u3, u4, qb, qa] =>
+      | some [thr, idle, doing, u0, u1, u2, u3, u4, qb, qa, cs, peak] =>
         if !(l.startsWith "P snap ") then fail a s!"impl=[{l}] expected a snapshot line" else
-        { a' with h := { a'.h with snaps := a'.h.snaps.push { thr := thr, idle := idle, doing := doing, undo := [u0, u1, u2, u3, u4], qb := qb, qa := qa } },
-                  tags := "snap" :: a'.tags }
+        let a2 : TAcc := { a' with h := { a'.h with snaps := a'.h.snaps.push { thr := thr, idle := idle, doing := doing, undo := [u0, u1, u2, u3, u4], qb := qb, qa := qa } },
+                                   tags := "snap" :: a'.tags }
+        a2.ev (if a'.ready then cs else 0) 0 (.api (.snap thr idle doing [u0, u1, u2, u3, u4] peak))
       | _ => fail a s!"impl=[{l}] expected a snapshot line"
   | ["hammer", us] =>
     match boundedNat us 200000 with
@@ -292,7 +398,7 @@ def stepOp1 (a : TAcc) (line : String) : TAcc :=
   | ["drain"] =>
     if !a.configured then bad else
     match nextLine a with
-    | (some "P drain ok", a') => a'
+    | (some "P drain ok", a') => { a' with bulkDrained := a'.bulkDrained || (a'.h.bulkN != 0 && !a'.cleaned) }
     | (some "P drain timeout", _) => fail a "drain: an accepted, not cancelled task was not executed within the watchdog time (lost wake-up?)"
     | (some l, _) => fail a s!"impl=[{l}] expected a drain line"
     | (none, _) => fail a "implementation output ends at drain (crash / timeout)"
@@ -307,7 +413,7 @@ def stepOp1 (a : TAcc) (line : String) : TAcc :=
          match (words l).drop 2 |>.mapM String.toNat? with
          | some [thr, idle, doing, un, live] =>
            if !(l.startsWith "M quiet ") then fail a s!"impl=[{l}] expected a quiescence record" else
-           let a2 := { a2 with tags := "settled" :: a2.tags }
+           let a2 := { a2 with tags := "settled" :: a2.tags, bulkDrained := a2.bulkDrained || (a2.h.bulkN != 0 && !a2.cleaned) }
            if a2.cleaned || !a2.ready then a2
            else if doing != 0 || un != 0 then mdivAdd a2 s!"quiescent pool reports doing={doing} waiting={un}"
            else if idle != thr || live != thr then mdivAdd a2 s!"quiescent pool: threads={thr} idle={idle} live worker threads={live}"
@@ -326,17 +432,18 @@ def stepOp1 (a : TAcc) (line : String) : TAcc :=
     | (none, _) => fail a s!"implementation output ends at {op} (crash / timeout)"
     | (some l, a') =>
       match words l with
-      | ["P", o, "ok", qb, qa, live, cs] =>
-        match qb.toNat?, qa.toNat?, live.toNat?, cs.toNat? with
-        | some qb, some qa, some live, some cs =>
+      | ["P", o, "ok", qb, qa, live, cs, ccs] =>
+        match qb.toNat?, qa.toNat?, live.toNat?, cs.toNat?, ccs.toNat? with
+        | some qb, some qa, some live, some cs, some ccs =>
           if o != op then fail a s!"impl=[{l}] expected a {op} line" else
           if live != 0 then fail a s!"{op}: cleanup returned while {live} worker thread(s) had not finished (not joined)" else
           let first := a'.h.cleanup.isNone
+          let a' := if ccs != 0 then (a'.ev ccs 0 (.api .cleanup)).ev qa 0 .cleanupRet else a'
           { a' with ready := false, cleaned := true,
                     configured := op == "cleanup", destroyed := a'.destroyed || op == "destroy",
                     h := if first then { a'.h with cleanup := some (qb, qa), cleanupCs := cs } else a'.h,
                     tags := op :: (if first && cs != 0 then ["cleanup-cs"] else []) ++ a'.tags }
-        | _, _, _, _ => fail a s!"unparsable [{l}]"
+        | _, _, _, _, _ => fail a s!"unparsable [{l}]"
       | ["P", "cleanup", "timeout"] => fail a "cleanup() did not return within the watchdog time: a worker is blocked for ever (DEADLOCK)"
       | _ => fail a s!"impl=[{l}] expected a {op} line"
   | _ => bad
@@ -383,13 +490,33 @@ def finish (d : DS) : List String :=
         | .error e => ["B " ++ " ".intercalate (tags0.eraseDups), "reject " ++ e]
         | .ok n =>
           -- thread accounting: threads created = min (or 1 for WorkThread) + spawns
-          let expectW := (if a.h.isPool then (if a.configured && (Cfg.ok { min := a.mn, max := a.h.max }) then a.mn else 0) else 1) + a.spawns
-          let md := a.mdiv ++ (if a.configured && a.nest.isEmpty && a.h.workers.size != expectW then
+          let expectW := (if a.h.isPool then (if a.okCfg then a.mn else 0) else 1) + a.spawns
+          let md := a.mdiv ++ (if a.configured && a.nest.isEmpty && a.h.bulkN == 0 && !a.tags.contains "init-spawn-failed" && a.h.workers.size != expectW then
             [s!"thread accounting: {a.h.workers.size} worker threads were created, expected min + spawns = {expectW}"] else [])
-          let tags := tags0 ++ (if n > 0 then ["order-checked"] else []) ++ (if md.isEmpty then [] else ["m-divergence"])
+          -- step-level replay: the recorded run must be an execution of the model
+          let doReplay := a.okCfg && !a.noReplay && !a.evs.isEmpty
+          let cfg : Cfg := if doReplay then { min := a.mn, max := a.h.max } else { min := 0, max := 1 }
+          let r := if doReplay then Tbox.C05.Replay.replay cfg a.evs else { s := init cfg }
+          let chk := Tbox.C05.Replay.checked cfg r
+          let rechecked := chk.isSome
+          let fs : State := match chk with | some (_, s) => s | none => r.s
+          let complete := doReplay && !r.dead
+          let md := md ++ r.md.take 3 ++
+            (if doReplay && !rechecked then ["replay: the reconstructed step list is not accepted by `exec`"] else []) ++
+            (if complete && fs.ranIds.length != a.h.bodies.size then
+              [s!"replay: the model executed {fs.ranIds.length} task bodies, the run {a.h.bodies.size}"] else []) ++
+            (if complete && a.h.cleanup.isSome && fs.cbs.length != a.h.cbs.size then
+              [s!"replay: the model executed {fs.cbs.length} completion callbacks, the run {a.h.cbs.size}"] else [])
+          let tags := tags0 ++ (if n > 0 then ["order-checked"] else []) ++ (if md.isEmpty then [] else ["m-divergence"]) ++
+            (if complete then ["replayed"] else []) ++ (if a.noReplay then ["log-overflow"] else []) ++
+            (if r.picks > 0 then ["pick-replayed"] else []) ++ (if r.answers > 0 then ["answer-replayed"] else []) ++
+            (if r.spawns > a.mn then ["spawn-replayed"] else [])
+          match r.perr with
+          | some e => md.map (fun m => "mdiv " ++ m) ++ ["B " ++ " ".intercalate (tags.eraseDups), "reject " ++ e]
+          | none =>
           md.map (fun m => "mdiv " ++ m) ++
           ["B " ++ " ".intercalate (tags.eraseDups),
-           s!"ok ops={a.nops} tasks={a.h.tasks.size} ran={a.h.bodies.size} cbs={a.h.cbs.size} queries={a.h.queries.size} orderpairs={n}"]
+           s!"ok ops={a.nops} tasks={a.h.tasks.size} ran={a.h.bodies.size} cbs={a.h.cbs.size} queries={a.h.queries.size} orderpairs={n} steps={r.steps.length} picks={r.picks} answers={r.answers}"]
 
 def stepLine (d : DS) (line : String) : DS × List String :=
   let t := line.trimAscii.toString
